@@ -1380,7 +1380,14 @@ def rt_c06(tier="quick", first_only=False, count=None):
                     return fails
     # bijection._vectorize (what BijectionReparam and Transformed apply to batches): batched == elementwise unbatched, on the zoo
     zrng = np.random.default_rng(3)
-    for zname, zb, zcd in bijection_zoo():
+    try:
+        zoo_ = bijection_zoo()
+    except Exception as ex:  # noqa: BLE001  (raised inside the library while constructing ordinary bijections)
+        import traceback as _tb
+        where = [ln for ln in _tb.format_exc().splitlines() if "flowjax/" in ln][-1:] or [""]
+        fails.append(dict(what=f"constructing the standard bijections (Affine, Scale, ... with valid arguments) raised {type(ex).__name__}: {str(ex)[:120]} {where[0].strip()[:120]}", case=dict(check="zoo construction")))
+        return fails
+    for zname, zb, zcd in zoo_:
         if tier == "quick" and any(t in zname for t in ("trained", "BlockAutoregressive", "Planar")):
             continue
         for xb, cb in (((3,), ()), ((2, 2), (2,))) if zcd is not None else (((3,), None), ((2, 1), None)):
